@@ -157,6 +157,22 @@ func (c *Ctx) recoverShape(f *ssa.Function) recoverInfo {
 		escapes = pathExists(g, first, isReturn, storesErr, nil) || isReturn(first)
 	}
 	if escapes {
+		// the error may travel through locals first: judged path by path (the last store into the result on each path
+		// from the recovered-something edge holds a value known to be non-nil)
+		ok := c.walkEdge(iff.Block(), nonNilSucc, nil, nil, func(in ssa.Instruction, nn func(ssa.Value) int, st int) int {
+			if s, isSt := in.(*ssa.Store); isSt && s.Addr == ssa.Value(errFree) {
+				if nn(s.Val) == nnNonNil {
+					return 1
+				}
+				return 0
+			}
+			return st
+		}, func(ret *ssa.Return, nn func(ssa.Value) int, st int) bool { return st == 1 })
+		if ok {
+			escapes = false
+		}
+	}
+	if escapes {
 		info.Why = "after recovering a panic there is a path that leaves the error result nil: the caller would get (value?, nil) from a panicked evaluation"
 		return info
 	}
@@ -309,6 +325,8 @@ func runC03(c *Ctx) {
 			c11Arity(c, br, "C03.argument-count-is-error")
 		}
 	}
+	// out-of-range string positions are errors only as long as they reach the slice expression unclamped
+	c17PositionsAreErrors(c, "C03.string-positions-are-errors")
 	// comparing arrays or maps is an error only as long as a nil slice / map is not taken for null (null == null is true)
 	nullDefinition(c, "C03.null-definition")
 	if reader := c.memberReader(d); reader != nil {
